@@ -83,6 +83,10 @@ pub fn check_spans(rep: &mut Report, spans: &[(usize, usize)], origin: &str, wel
     let mut sim: Vec<char> = vec![];
     let mut pos = 0;
     for l in &sorted {
+        if pos > l.span.start {
+            rep.fail("back_to_front", format!("kept lint {:?} starts before the end ({pos}) of the previous kept lint: the edits interfere", l.span), inp_json.clone());
+            return;
+        }
         sim.extend(&src[pos..l.span.start]);
         sim.extend(['<', '>']);
         pos = l.span.end;
